@@ -1,6 +1,7 @@
 (* C10 — redshift-bin membership follows the closed-side rule everywhere.
-   Statements only; proofs are in Proofs/BinningP.v, models in Model/Binning.v. *)
-From Verif Require Import Prelude Binning BinningP.
+   Statements only; proofs are in Proofs/BinningP.v and Proofs/BinningEqP.v, models in Model/Binning.v and
+   Model/BinningEq.v. *)
+From Verif Require Import Prelude Binning BinningP BinningEq BinningEqP.
 Open Scope Q_scope.
 
 (* np.digitize on strictly increasing edges, both values of `right`: b+1 iff member b,
@@ -411,4 +412,102 @@ Example C10_big_concrete :
   c10_big_case true true (1 # 4) segs 33002 [objs] [Some (33002%Z, right)] (Some (33002%Z, w right)) (Some [(33002%Z, w right)]) = 0%nat /\
   c10_big_case false true (1 # 4) segs 33002 [objs] [Some (33002%Z, left)] (Some (33002%Z, w left)) (Some [(33002%Z, w left)]) = 0%nat /\
   c10_big_case true true (1 # 4) segs 33002 [objs] [Some (33002%Z, lost)] (Some (33002%Z, w right)) (Some [(33002%Z, w lost)]) = 51%nat.
+Proof. vm_compute. repeat split; reflexivity. Qed.
+
+(* ---- near-equal binnings: edge arrays of the same length and closed side that differ in the last place
+        (np.linspace against the same numbers typed by hand, zmin + k * step, text read back, float32 widened),
+        redshifts exactly on one of the two variants of an edge; the COMPARISON of binnings that lets
+        BinnedTrees.build keep cached trees (Binning.__eq__) ---- *)
+
+(* binnings that compare equal under the exact comparison put every redshift into the same bins ... *)
+Theorem C10_equal_binnings_same_members : forall a b, binning_eqb a b = true ->
+  forall k z, member (fst a) (snd a) k z <-> member (fst b) (snd b) k z.
+Proof. exact eq_exact_sound. Qed.
+Print Assumptions C10_equal_binnings_same_members.
+
+(* ... and give the same trees, object for object *)
+Theorem C10_equal_binnings_same_trees : forall hasw k' k objs,
+  bkey_eqb k' k = true -> trees_for hasw k' objs = trees_for hasw k objs.
+Proof. exact trees_for_eqb. Qed.
+Print Assumptions C10_equal_binnings_same_trees.
+
+(* the cache decision with the comparison as a parameter is, for the exact comparison, the cache of Model/Binning.v
+   (C10_cache_history_member is about that one) *)
+Theorem C10_cache_by_exact : forall hasw force k patches c,
+  cat_build_by bkey_eqb hasw force k patches c = cat_build hasw force k patches c.
+Proof. exact cat_build_by_exact. Qed.
+Print Assumptions C10_cache_by_exact.
+
+(* sufficient: a comparison that says `equal` only for exactly equal binnings keeps cached trees only when they are
+   the trees of the binning requested now *)
+Theorem C10_cache_comparison_sufficient : forall eqk,
+  (forall k' k, eqk k' k = true -> bkey_eqb k' k = true) ->
+  forall hasw k objs c, entry_valid hasw objs c ->
+    exists k', patch_build_by eqk hasw false k objs c = Some (k', trees_for hasw k objs).
+Proof. exact cache_cmp_sufficient. Qed.
+Print Assumptions C10_cache_comparison_sufficient.
+
+(* necessary: if the cache is correct for every patch, its comparison answers `equal` for two valid binnings only
+   when closed side and every edge are exactly equal: there is no tolerance that is safe *)
+Theorem C10_cache_comparison_exact_only : forall eqk a b,
+  cache_correct eqk -> binning_ok a = true -> binning_ok b = true ->
+  eqk (Some a) (Some b) = true -> binning_eqb a b = true.
+Proof. exact cache_cmp_exact_only. Qed.
+Print Assumptions C10_cache_comparison_exact_only.
+
+(* whatever the tolerance (np.allclose: rtol, atol, one of them positive) there are valid binnings of the same
+   length and closed side that compare equal while a redshift on an edge of the first lies in different bins *)
+Theorem C10_tolerant_equality_refuted : forall rtol atol,
+  0 <= rtol -> 0 <= atol -> 0 < rtol + atol ->
+  exists a b z, binning_ok a = true /\ binning_ok b = true /\ length (snd a) = length (snd b) /\ fst a = fst b /\
+    binning_close rtol atol a b = true /\
+    member (fst a) (snd a) 1 z /\ ~ member (fst b) (snd b) 1 z /\ member (fst b) (snd b) 0 z.
+Proof. exact close_refuted. Qed.
+Print Assumptions C10_tolerant_equality_refuted.
+
+(* the float64 instance: np.linspace(0.1, 0.4, 4) and [0.1, 0.2, 0.3, 0.4] (one unit in the last place apart at 0.3),
+   rtol = 10^-9, the redshift 0.3; a cache with that comparison keeps the trees of the generated edges when the typed
+   ones are requested, the exact comparison rebuilds *)
+Theorem C10_tolerant_cache_refuted :
+  exists patches ka kb,
+    let tol := bkey_close (1 # 1000000000) 0 in
+    let pre := cat_build true false ka patches (cache_init (length patches)) in
+    cache_valid true patches pre /\
+    tol ka kb = true /\ bkey_eqb ka kb = false /\
+    cat_build_by tol true false kb patches pre = pre /\
+    map entry_trees (cat_build_by tol true false kb patches pre) <> map (fun o => Some (spec_trees_for true kb o)) patches /\
+    map entry_trees (cat_build true false kb patches pre) = map (fun o => Some (spec_trees_for true kb o)) patches /\
+    ~ cache_correct tol.
+Proof. exact cache_close_refuted. Qed.
+Print Assumptions C10_tolerant_cache_refuted.
+
+(* the checker the harness evaluates on every observed comparison (Binning / BinningConfig / Configuration ==, !=,
+   BinnedTrees.binning_equal) *)
+Theorem C10_eq_case_sound : forall cr e cr' e' ie ine ic,
+  c10_eq_case cr e cr' e' ie ine ic = 0%nat ->
+  increasing e /\ increasing e' /\
+  ie = binning_eqb (cr, e) (cr', e') /\ ine = negb ie /\
+  (forall c, ic = Some c -> c = ie) /\
+  (ie = true -> forall k z, member cr e k z <-> member cr' e' k z).
+Proof. exact eq_case_sound. Qed.
+Print Assumptions C10_eq_case_sound.
+
+(* non-vacuity: the float64 edges above; the exact answers are accepted; the answers of a comparison with
+   rtol = 10^-9 are flagged (flags 0, 1, 2 and the membership flag 3); in the cache checker a measured build with the
+   typed edges on trees cached for the generated ones must leave the object with redshift 0.3 in bin 2 *)
+Example C10_near_equal_concrete :
+  let patches := [[(z_03, 2); (1 # 4, 4)]; [(z_03, 8)]] in
+  let ka := Some (false, e_linspace) in
+  let kb := Some (false, e_typed) in
+  let hist := [HCatalog false ka] in
+  let pre := run_history true patches hist (cache_init 2) in
+  let good := cat_build true false kb patches pre in
+  binning_close (1 # 1000000000) 0 (false, e_linspace) (false, e_typed) = true /\
+  c10_eq_case false e_linspace false e_typed false true (Some false) = 0%nat /\
+  c10_eq_case false e_linspace false e_typed true false (Some true) = 15%nat /\
+  c10_eq_case false e_typed false e_typed true false (Some true) = 0%nat /\
+  pre = [Some (ka, [(0%nat, 0); (2%nat, 6); (0%nat, 0)]); Some (ka, [(0%nat, 0); (1%nat, 8); (0%nat, 0)])] /\
+  good = [Some (kb, [(0%nat, 0); (1%nat, 4); (1%nat, 2)]); Some (kb, [(0%nat, 0); (0%nat, 0); (1%nat, 8)])] /\
+  c10_cache_case true patches hist false kb e_typed pre good (Some [0; 4; 10]) (Some [[0; 0]; [4; 0]; [2; 8]]) = 0%nat /\
+  c10_cache_case true patches hist false kb e_typed pre pre (Some [0; 4; 10]) (Some [[0; 0]; [6; 8]; [0; 0]]) = 151%nat.
 Proof. vm_compute. repeat split; reflexivity. Qed.
